@@ -198,27 +198,28 @@ func (wg *WaitGroup) Wait() {
 // must never cross synctest bubbles).
 type Pool struct {
 	New   func() interface{}
-	items []interface{}
+	items map[*simrt.Proc][]interface{} // a package-level pool exists once per process: one free list per simulated process
 	epoch uint64
 }
 
 func (p *Pool) check() {
 	e := simrt.RunEpoch()
-	if p.epoch != e {
-		p.items = nil
+	if p.epoch != e || p.items == nil {
+		p.items = map[*simrt.Proc][]interface{}{}
 		p.epoch = e
 	}
 }
 
 func (p *Pool) Get() interface{} {
 	p.check()
-	if n := len(p.items); n > 0 {
+	pr := simrt.CurProc()
+	if n := len(p.items[pr]); n > 0 {
 		// buggify: a real sync.Pool may lose any object at any time
 		if simrt.Buggify("pool-miss") {
-			p.items = p.items[:n-1]
+			p.items[pr] = p.items[pr][:n-1]
 		} else {
-			x := p.items[n-1]
-			p.items = p.items[:n-1]
+			x := p.items[pr][n-1]
+			p.items[pr] = p.items[pr][:n-1]
 			return x
 		}
 	}
@@ -233,5 +234,6 @@ func (p *Pool) Put(x interface{}) {
 	if x == nil {
 		return
 	}
-	p.items = append(p.items, x)
+	pr := simrt.CurProc()
+	p.items[pr] = append(p.items[pr], x)
 }
